@@ -1474,10 +1474,10 @@ Proof.
   - eexists _, _. vm_compute. reflexivity.
 Qed.
 
-(* floats in a list: a constant run, a double, a subnormal *)
+(* floats in a list: a constant run, a double, a subnormal; a bare symbol, a blob *)
 Definition ex_fl_opts : popts := {| lossless := true; prec := 2; linelength := 30; compress := true |}.
 Definition ex_fl_list : list av :=
-  repeat (VFl 1069547520) 6 ++ [VD 4591870180066957722; VFl 1; VI 3].
+  repeat (VFl 1069547520) 6 ++ [VD 4591870180066957722; VFl 1; VI 3; VSym [97; 95; 49]; VB [1; 255; 16]].
 Lemma float_list_example :
   Forall (goodv ex_fl_opts) ex_fl_list /\ nozmix ex_fl_list /\
   exists text w, print_arg_vals ex_fl_opts ex_fl_list 0 = Some (text, w).
@@ -1485,7 +1485,8 @@ Proof.
   split; [|split].
   - unfold ex_fl_list. cbn [repeat app].
     repeat (constructor; [first [left; cbn; unfold small_k, good_k; lia
-                                |right; split; [reflexivity|]; cbn [goodfin]; split; [lia|reflexivity]]|]).
+                                |right; left; cbn [goodx]; first [reflexivity|repeat constructor; unfold byte_ok; lia]
+                                |right; right; split; [reflexivity|]; cbn [goodfin]; split; [lia|reflexivity]]|]).
     constructor.
   - split; left; unfold ex_fl_list; cbn [repeat app In]; intros H;
       repeat (destruct H as [H|H]; [discriminate H|]); exact H.
